@@ -10,9 +10,9 @@ PROPS = [f"C{i:02d}" for i in range(1, 21)]
 SHARED = {
     "C03": [("C03.R9", "c10", "r3_strategy_laws", "the dependent dispatcher checks only what the call supplies and decides as prescribed")],
     "C01": [("C01.R10", "c10", "r3_strategy_laws", "a value-dependent method runs only when its own conditions hold"), ("C01.R8", "c03", "r3_early_exits", "early exits key and forward exactly what was supplied"), ("C01.R9", "c11", "r4_connective_is_quantifier", "emitted union checks are bracketed, connectives are quantifiers")],
-    "C04": [("C04.R8", "c19", "r4_whole_value_stores", "cache reads do not consume; fills store whole values")],
+    "C04": [("C04.R9", "more", "tables_hold_rereadable_values", "tables never hold one-shot iterators"), ("C04.R10", "more", "per_position_lookup_ignores_cache", "a per-position lookup does not depend on cached entries of other classes"), ("C04.R8", "c19", "r4_whole_value_stores", "cache reads do not consume; fills store whole values")],
     "C06": [("C06.R6", "c07", "r3", "the continuation branch consults what resolving the bare key stored"), ("C06.R7", "c14", "r2", "one key function on every path"), ("C06.R8", "c05", "r2", "every change propagates to every dependent")],
-    "C07": [("C07.R11", "c08", "r1_self_references_found", "recurse / call_next symbols are found in globals and closure cells")],
+    "C07": [("C07.R12", "more", "tables_hold_rereadable_values", "the applicable-code set can be read by every later call_next"), ("C07.R11", "c08", "r1_self_references_found", "recurse / call_next symbols are found in globals and closure cells")],
     "C08": [("C08.R7", "c08", "r7_recurse_call_shapes", "every recurse call shape is handled or left alone"), ("C08.R8", "c09", "r7_own_code_object", "the recompiled code object is the method's own")],
     "C10": [("C10.R8", "c05", "r1_derived_tables_flushed", "no dispatcher outlives the registration that made it"), ("C10.R9", "c04", "r1_store_key_is_lookup_key", "stores are filed under the key looked up")],
     "C11": [("C11.R8", "c10", "r2", "a rank with any dependent member is wrapped; keyword entries count"), ("C11.R9", "more", "hash_reads_what_eq_compares", "equality of value types covers bound and values")],
@@ -22,7 +22,8 @@ SHARED = {
     "C15": [("C15.R7", "more", "annotations_pass_the_normaliser", "every annotation read passes the normaliser"), ("C15.R8", "c12", "r4_tables", "decision tables of the Order-valued code (union order is member-order free)")],
     "C18": [("C18.R7", "more", "removal_is_exhaustive", "unregistering removes every signature of the function")],
     "C19": [("C19.R9", "c07", "r3", "the continuation branch resolves the bare key first and consults what it stored")],
-    "C20": [("C20.R7", "c07", "r3", "the continuation branch reads the cached bare key"), ("C20.R8", "c07", "r5_next_keys_like_call_next", "next() keys like the entry point")],
+    "C05": [("C05.R5", "c18", "r4_flag_never_unset", "the built flag is not lowered while the generated entry point stays live")],
+    "C20": [("C20.R9", "c20", "r9_dependent_dispatcher_tests_values_only", "the dependent dispatcher does not re-test plain classes"), ("C20.R7", "c07", "r3", "the continuation branch reads the cached bare key"), ("C20.R8", "c07", "r5_next_keys_like_call_next", "next() keys like the entry point")],
 }
 
 
